@@ -20,8 +20,12 @@ import vlib
 
 SCOPE = {
     "quick": dict(mc=["Weights_MC.cfg"], gen="Weights_Gen.cfg", replay=500, explore=1000, grid=12, each_weak=False),
-    "thorough": dict(mc=["Weights_MC.cfg", "Weights_MC_T1.cfg", "Weights_MC_T2.cfg", "Weights_MC_T3.cfg"], gen="Weights_Gen_T.cfg", replay=None,
-                     explore=15000, grid=200, each_weak=True),
+    # thorough, sized for <= 20 min on a 16-core machine at load ~50 (about 18 CPU-minutes): four exhaustive scopes of ~20-55k states each
+    # instead of one of 415k; ~20k traces = 10k TLC-enumerated scenarios drawn STRATIFIED over (weight vector x feature vector) + option grid
+    # + cells + 8k explorer scenarios; the multi-mutation run names every rejected rule, so the per-rule configs (Weights_Weak_<rule>.cfg,
+    # kept for reference / manual use) are not run again
+    "thorough": dict(mc=["Weights_MC.cfg", "Weights_MC_T1.cfg", "Weights_MC_T2.cfg", "Weights_MC_T2b.cfg", "Weights_MC_T3.cfg"], gen="Weights_Gen_T.cfg",
+                     replay=10000, explore=8000, grid=60, each_weak=False),
 }
 
 
@@ -38,10 +42,12 @@ def account(run, module, cfg, r):
 
 def start_model_jobs(run, tier, dev, ex):
     """the closed-model stage as independent TLC jobs (Run.tlc is thread-safe); returns the futures for finish_model_jobs"""
-    big = 4 if dev else (8 if run.tier == "quick" else None)
+    big = 4 if dev else (8 if run.tier == "quick" else 4)
 
-    def mc_chain():        # the exhaustive runs one after the other (the thorough ones want every core)
-        return [(cfg, run.tlc("Weights", cfg, workers=big, heap="4g" if dev else "8g", timeout=5400)) for cfg in tier["mc"]]
+    mcs = [(cfg, ex.submit(run.tlc, "Weights", cfg, workers=big, heap="4g", timeout=5400)) for cfg in tier["mc"]]   # side by side
+
+    def mc_chain():
+        return [(cfg, f.result()) for cfg, f in mcs]
 
     def weak_each():
         return [(x, run.tlc("Weights", "Weights_Weak_%s.cfg" % x, workers=2, expect_violation=True, timeout=1800, heap="4g")) for x in wc.ALL_WEAK]
@@ -97,8 +103,15 @@ def scenarios_for(run, tier, rng, gen):
     if not enum:
         raise vlib.InfraError("TLC generated no scenarios")
     total = len(enum)
-    if tier["replay"] and tier["replay"] < len(enum):
+    if tier["replay"] and tier["replay"] < len(enum) and run.tier == "quick":
         enum = rng.sample(enum, tier["replay"])
+    elif tier["replay"] and tier["replay"] < len(enum):
+        # stratified over (weight vector, feature vector) = the 2nd and 3rd component of the scenario name: every stratum keeps its share
+        strata = {}
+        for sc_ in enum:
+            strata.setdefault(tuple(sc_["name"].split("-")[1:3]), []).append(sc_)
+        per = max(1, tier["replay"] // len(strata))
+        enum = [x for k in sorted(strata) for x in rng.sample(strata[k], min(per, len(strata[k])))]
     else:
         run.exhaustive = True
     rng.shuffle(enum)
@@ -136,7 +149,7 @@ def check(run):
                 "heavier pool existed, a pod of the exact alphabet ended without a home, or an option list was really truncated")
     import concurrent.futures as cf
     # independent TLC jobs, the harness build, the drivers and the trace validation run concurrently (Run.tlc is thread-safe)
-    with cf.ThreadPoolExecutor(max_workers=10) as ex:
+    with cf.ThreadPoolExecutor(max_workers=16) as ex:
         f_build = ex.submit(run.build_drv)
         f_gen = ex.submit(run.tlc, "Weights", tier["gen"], workers=2, timeout=3600, heap="4g", collect_beh=True)
         jobs = None if os.environ.get("VERIF_SKIP_MODEL") else start_model_jobs(run, tier, dev, ex)   # skip: developer aid for mutation runs
